@@ -592,6 +592,12 @@ class _Obs:
                              msg=f"after {how}: the clean data were modified in place"))
         if self.n0 is not None and op == "S" and (getattr(sim, "noisy_data", None) is not self.n0 or _data_text(self.n0) != self.n0_text):
             viol.append(dict(clause="source_unchanged", entry=entry, causes=causes, msg=f"after {how}: sparsify changed noisy_data"))
+        if op in ("S", "C") and self.d0 is not None:
+            comps = _components(self.d0)
+            two_d = bool(comps) and all(len(list(c.argvals.keys())) > 1 for c in comps)
+            if two_d and status == "ok":
+                viol.append(dict(clause="unsupported_2d_rejected", entry=entry, causes=["success"],
+                                 msg="sparsification of data whose components are all 2-D is documented as unsupported but did not raise"))
         if status != "ok":
             return
         noisy, sparse = getattr(sim, "noisy_data", None), getattr(sim, "sparse_data", None)
